@@ -1,4 +1,4 @@
-(* Progress of the first stage of remap_to_input: with untagged baits that
+(* Progress of the first stage of remap_to_input: with baits untagged or tagged Painted only, that
    name existing, non-empty input scaffolds, the fold of one_pretext_scaffold
    over the Pretext scaffolds returns Ok, and registers no haplotig. *)
 From Tola Require Import Py.Base Py.Sort Model.Fragment Model.Scaffold Model.Lookup
@@ -18,6 +18,36 @@ Lemma fragment_tags_untagged' rows :
   Forall (fun f => f_tags f = []) (frags_of rows) -> fragment_tags rows = [].
 Proof. intro H. unfold fragment_tags. rewrite (flat_map_tags_nil' _ H). reflexivity. Qed.
 
+(* ------------------------------------------------- rows tagged Painted only *)
+Definition tags_ok (l : list str) : Prop := l = [] \/ l = [s "Painted"].
+
+Lemma dedup_acc_all_seen (p : str) : forall l seen,
+  Forall (eq p) l -> existsb (str_eqb p) seen = true -> dedup_acc str_eqb seen l = [].
+Proof.
+  induction l as [|x l IH]; intros seen H Hs; [reflexivity|].
+  inversion H as [|x' l' Hx Hl]; subst. cbn [dedup_acc]. rewrite Hs. apply IH; assumption.
+Qed.
+
+Lemma dedup_all_same (p : str) l : Forall (eq p) l -> dedup str_eqb l = [] \/ dedup str_eqb l = [p].
+Proof.
+  intro H. unfold dedup. destruct l as [|x l]; [left; reflexivity|].
+  inversion H as [|x' l' Hx Hl]; subst. right. cbn [dedup_acc existsb].
+  rewrite (dedup_acc_all_seen x l [x] Hl); [reflexivity|].
+  cbn [existsb]. rewrite str_eqb_refl. reflexivity.
+Qed.
+
+Lemma flat_map_tags_painted : forall l : list frag,
+  Forall (fun f => tags_ok (f_tags f)) l -> Forall (eq (s "Painted")) (flat_map f_tags l).
+Proof.
+  induction l as [|f l IH]; intro H; [constructor|].
+  inversion H as [|f' l' Hf Hl]; subst. cbn [flat_map]. apply Forall_app. split; [|exact (IH Hl)].
+  destruct Hf as [-> | ->]; repeat constructor.
+Qed.
+
+Lemma fragment_tags_painted rows :
+  Forall (fun f => tags_ok (f_tags f)) (frags_of rows) -> tags_ok (fragment_tags rows).
+Proof. intro H. unfold fragment_tags. apply dedup_all_same, flat_map_tags_painted, H. Qed.
+
 (* ----------------------------------- make_scaffold_name without any tag *)
 Lemma make_scaffold_name_untagged' nm name rows f t :
   rows = RF f :: t -> fragment_tags rows = [] ->
@@ -35,6 +65,33 @@ Proof.
     cbn [nm_unloc_scaffolds nm_hap_scaffolds nm_target]. repeat split; reflexivity.
   - cbn [bind]. eexists. split; [reflexivity|].
     cbn [nm_unloc_scaffolds nm_hap_scaffolds nm_target]. repeat split; reflexivity.
+Qed.
+
+Lemma scan_painted st :
+  scan_tag st (s "Painted")
+  = Ok (mkScan (ts_name st) (ts_hap st) true (ts_rank st) (ts_primary st) (ts_target st) (ts_lc st)).
+Proof. reflexivity. Qed.
+
+(* [tags] = fragment_tags rows, as one_pretext_scaffold passes it *)
+Lemma make_scaffold_name_painted nm name rows f t :
+  rows = RF f :: t -> tags_ok (fragment_tags rows) ->
+  exists nm', make_scaffold_name nm name rows (fragment_tags rows) = Ok nm'
+              /\ nm_unloc_scaffolds nm' = []
+              /\ nm_hap_scaffolds nm' = nm_hap_scaffolds nm
+              /\ nm_target nm' = nm_target nm.
+Proof.
+  intros Hrows [Htags | Htags].
+  - rewrite Htags. exact (make_scaffold_name_untagged' nm name rows f t Hrows Htags).
+  - rewrite Htags. unfold make_scaffold_name. subst rows.
+    cbn [foldM]. rewrite scan_painted.
+    cbn [bind ts_hap ts_lc ts_primary ts_name ts_painted ts_rank ts_target truthy andb negb
+         first_row_name].
+    destruct (haplotype_prefix_of_name (f_name f)) as [p|] eqn:Ehp.
+    + destruct (get_set_haplotype (nm_hap_lc nm) p) as [h lc] eqn:Egs.
+      cbn [bind]. eexists. split; [reflexivity|].
+      cbn [nm_unloc_scaffolds nm_hap_scaffolds nm_target]. repeat split; reflexivity.
+    + cbn [bind]. eexists. split; [reflexivity|].
+      cbn [nm_unloc_scaffolds nm_hap_scaffolds nm_target]. repeat split; reflexivity.
 Qed.
 
 (* ------------------------------------------------ trim_large_overhangs *)
@@ -116,6 +173,15 @@ Qed.
 Lemma label_untagged nm id tags : exists lab, label_scaffold nm id [] tags = Ok (nm, lab).
 Proof. unfold label_scaffold. cbn [mem_str existsb orb]. eexists. reflexivity. Qed.
 
+Lemma label_painted nm id tags : exists lab, label_scaffold nm id [s "Painted"] tags = Ok (nm, lab).
+Proof.
+  unfold label_scaffold.
+  change (mem_str (s "FalseDuplicate") [s "Painted"]) with false.
+  change (mem_str (s "Haplotig") [s "Painted"]) with false.
+  change (mem_str (s "Unloc") [s "Painted"]) with false.
+  cbv iota. eexists. reflexivity.
+Qed.
+
 Lemma found_rows_nonempty rows bs be fo :
   lookup_spec rows bs be (Some fo) -> fo_rows fo <> [].
 Proof.
@@ -136,7 +202,7 @@ Definition inp_ok (inp : list (str * list row)) : Prop :=
   forall name rows, In (name, rows) inp -> rows <> [] /\ pos_rows rows.
 
 Definition bait_ok (inp : list (str * list row)) (b : frag) : Prop :=
-  f_tags b = [] /\ 1 <= f_start b <= f_end b /\ In (f_name b) (map fst inp).
+  tags_ok (f_tags b) /\ 1 <= f_start b <= f_end b /\ In (f_name b) (map fst inp).
 
 Lemma one_bait_ok inp err tags orig b bait :
   inp_ok inp -> bait_ok inp bait ->
@@ -147,8 +213,11 @@ Proof.
   destruct (Hinp _ _ Hr) as [Hne Hp].
   destruct (find_overlaps_spec rows (f_start bait) (f_end bait) Hne Hp Hpos) as (fo & Efo & Hspec).
   rewrite Efo. cbn [bind]. destruct fo as [fo'|]; [|exists b; split; reflexivity].
-  cbv zeta. rewrite Htags.
-  destruct (label_untagged (b_namer b) (zlen (b_store b)) tags) as (lab & El). rewrite El. cbn [bind].
+  cbv zeta.
+  assert (HL : exists lab, label_scaffold (b_namer b) (zlen (b_store b)) (f_tags bait) tags
+                           = Ok (b_namer b, lab)).
+  { destruct Htags as [-> | ->]; [apply label_untagged | apply label_painted]. }
+  destruct HL as (lab & El). rewrite El. cbn [bind].
   destruct (trim_large_overhangs_ok (set_labels (ovr_of_found bait fo') lab orig tags) err)
     as (r1 & E1).
   { cbn [set_labels o_rows ovr_of_found]. exact (found_rows_nonempty _ _ _ _ Hspec). }
@@ -180,14 +249,14 @@ Lemma one_pretext_ok inp err b p :
 Proof.
   destruct p as [pname prows]. cbn [snd]. intros Hinp (f & t & Hrows) Hb.
   unfold one_pretext_scaffold.
-  assert (Ht : fragment_tags prows = []).
-  { apply fragment_tags_untagged'. rewrite Forall_forall in Hb |- *. intros g Hg.
+  assert (Ht : tags_ok (fragment_tags prows)).
+  { apply fragment_tags_painted. rewrite Forall_forall in Hb |- *. intros g Hg.
     exact (proj1 (Hb g Hg)). }
-  cbv zeta. rewrite Ht.
-  destruct (make_scaffold_name_untagged' (b_namer b) pname prows f t Hrows Ht)
+  cbv zeta.
+  destruct (make_scaffold_name_painted (b_namer b) pname prows f t Hrows Ht)
     as (nm' & Em & Hu & Hh & _).
   rewrite Em. cbn [bind].
-  destruct (one_bait_fold_ok inp err [] pname Hinp (frags_of prows) (with_namer b nm') Hb)
+  destruct (one_bait_fold_ok inp err (fragment_tags prows) pname Hinp (frags_of prows) (with_namer b nm') Hb)
     as (b1 & E1 & Hn).
   rewrite E1. cbn [bind]. rewrite Hn. cbn [with_namer b_namer]. rewrite Hu.
   change (rename_results (b_store b1) []) with (Ok (b_store b1)). cbn [bind].
@@ -199,7 +268,7 @@ Qed.
 Lemma pretext_progress inp err pretext b0 :
   (forall name rows, In (name, rows) inp -> rows <> [] /\ pos_rows rows) ->
   Forall (fun p => exists b t, snd p = RF b :: t) pretext ->
-  Forall (fun b => f_tags b = [] /\ 1 <= f_start b <= f_end b /\ In (f_name b) (map fst inp))
+  Forall (fun b => tags_ok (f_tags b) /\ 1 <= f_start b <= f_end b /\ In (f_name b) (map fst inp))
          (baits_of pretext) ->
   exists b1, foldM (one_pretext_scaffold inp err) pretext b0 = Ok b1
              /\ nm_hap_scaffolds (b_namer b1) = nm_hap_scaffolds (b_namer b0).
